@@ -54,6 +54,8 @@ type FuncContract struct {
 	File          string
 	Line          int
 	Safety        []string
+	Variant       string
+	NaNParams     []string
 }
 
 type SpecFunc struct {
@@ -199,6 +201,12 @@ func parseContractFile(cs *Contracts, pkgPath, file string) {
 			if m[1] == "iface" {
 				cs.Ifaces[m[2]] = cur
 			} else {
+				// "name#variant": a further contract of the same function, verified
+				// separately (never used at call sites)
+				if i := strings.Index(m[2], "#"); i > 0 {
+					cur.Name = m[2][:i]
+					cur.Variant = m[2][i+1:]
+				}
 				cs.Funcs[pkgPath+"."+m[2]] = cur
 			}
 		default:
@@ -269,6 +277,8 @@ func parseFuncDirective(fc *FuncContract, word, rest, file string, line int) {
 		fc.PanicsAllowed = strings.TrimSpace(rest) == "allowed"
 	case "noalias":
 		fc.NoAlias = true
+	case "nan":
+		fc.NaNParams = append(fc.NaNParams, strings.Fields(rest)...)
 	case "safety":
 		fc.Safety = append(fc.Safety, strings.Fields(rest)...)
 	case "callarg":
